@@ -32,6 +32,8 @@ DEPTH_PARAM = {
     "sexp_contains_syntax_p_bound": "depth",
     "hash_one": "depth",
     "sexp_print_simple": "depth",
+    "json_read": "depth",
+    "json_write": "depth",
 }
 
 BY_CONSTRUCTION = {
